@@ -22,7 +22,9 @@ LEVEL = "model_checking"
 RULE = (
     "(a) catalogue of %d call templates covering every public function of verde, verde.utils, verde.base and every public method of every "
     "estimator / reducer / cross-validator; for each template: base run, a second identical run, and one run per array slot with that slot "
-    "read-only and one with it as a non-contiguous view, plus all slots read-only. (b) explicit-state BFS over histories of %d estimator specs "
+    "read-only and one with it as a non-contiguous view (2-D slots also Fortran-ordered), plus all slots read-only; the caller overwrites every returned buffer "
+    "before the second run; interference: for every ordered pair of option variants (A, B) of 25 function families: A, B, A again must "
+    "give A's result. (b) explicit-state BFS over histories of %d estimator specs "
     "with the event alphabet {fit(D_a), fit(D_b), fit(D_c), predict, filter(D_a), grid, clone, set_params(**get_params()), switch to an "
     "alternative / back to the base parameter set through set_params, caller overwrites the arrays it passed earlier}, depth 3 (thorough 4), every history replayed on a fresh estimator (histories merged on (abstract state, concrete fingerprint) only for SplineCV), invariant: the "
     "fingerprint equals that of the shortest history with the same abstract state. (c) %d single inconsistencies that must raise. "
@@ -223,9 +225,97 @@ def _canon(x):
     return ("obj", repr(x))
 
 
+def _scribble(x, depth=0):
+    """Overwrite, in place, every writeable numpy buffer reachable from a returned value (what a caller may legitimately do with
+    arrays it received).  A later call must not be affected (seed C08-r2_2: a memoised helper handing out its cached array)."""
+    import pandas as pd
+    import xarray as xr
+
+    if depth > 6:
+        return
+    if isinstance(x, np.ndarray):
+        if x.dtype == object:
+            for v in x.ravel():
+                _scribble(v, depth + 1)
+        elif x.flags.writeable and x.size:
+            try:
+                x[...] = 77 if x.dtype != bool else True
+            except Exception:  # noqa: BLE001
+                pass
+    elif isinstance(x, (list, tuple)):
+        for v in x:
+            _scribble(v, depth + 1)
+    elif isinstance(x, dict):
+        for v in x.values():
+            _scribble(v, depth + 1)
+    elif isinstance(x, (xr.Dataset,)):
+        for k in list(x.data_vars) + list(x.coords):
+            try:
+                _scribble(x[k].values, depth + 1)
+            except Exception:  # noqa: BLE001
+                pass
+    elif isinstance(x, xr.DataArray):
+        _scribble(x.values, depth + 1)
+        for k in x.coords:
+            _scribble(x.coords[k].values, depth + 1)
+    elif isinstance(x, pd.DataFrame):
+        for c in x.columns:
+            try:
+                _scribble(x[c].to_numpy(copy=False), depth + 1)
+            except Exception:  # noqa: BLE001
+                pass
+
+
+def _families(vd):
+    """Groups of calls to the same function that differ in ONE option; used to look for interference between calls
+    (state shared across calls: caches keyed on too little, module-level scratch buffers).  Seed C09-r2_1."""
+    e, n, d0, d1 = _pts("a")
+    F = {}
+    F["block_split"] = [lambda a=a, kw=kw: vd.block_split((e, n), region=(0, 4, 0, 2), **kw) for a, kw in enumerate(
+        [dict(spacing=0.9, adjust="spacing"), dict(spacing=0.9, adjust="region"), dict(shape=(2, 4)), dict(spacing=(0.9, 1.3)), dict(spacing=(1.3, 0.9))])]
+    F["block_split(inferred)"] = [lambda kw=kw: vd.block_split((e, n), **kw) for kw in
+                                  [dict(spacing=0.7, adjust="spacing"), dict(spacing=0.7, adjust="region"), dict(shape=(2, 3))]]
+    F["grid_coordinates"] = [lambda kw=kw: vd.grid_coordinates((0, 5, 0, 10), **kw) for kw in
+                             [dict(spacing=2.4), dict(spacing=2.4, adjust="region"), dict(spacing=2.4, pixel_register=True), dict(shape=(5, 3)),
+                              dict(shape=(5, 3), pixel_register=True), dict(spacing=2.4, extra_coords=3), dict(spacing=2.4, meshgrid=False)]]
+    F["line_coordinates"] = [lambda kw=kw: vd.line_coordinates(0, 10, **kw) for kw in
+                             [dict(spacing=2.4), dict(spacing=2.4, adjust="region"), dict(spacing=2.4, pixel_register=True), dict(size=5), dict(size=5, pixel_register=True)]]
+    F["rolling_window"] = [lambda kw=kw: vd.rolling_window((e, n), size=1.0, **kw) for kw in
+                           [dict(spacing=0.7), dict(spacing=0.7, adjust="region"), dict(shape=(2, 3)), dict(spacing=0.7, region=(0.5, 3.5, 0.25, 1.75))]]
+    F["BlockReduce.filter"] = [lambda kw=kw: vd.BlockReduce(np.median, **kw).filter((e, n), d0) for kw in
+                               [dict(spacing=0.9), dict(spacing=0.9, adjust="region"), dict(spacing=0.9, center_coordinates=True), dict(shape=(2, 3)),
+                                dict(spacing=0.9, region=(0, 4, 0, 2))]]
+    F["BlockMean.filter"] = [lambda kw=kw: vd.BlockMean(**kw).filter((e, n), d0) for kw in
+                             [dict(spacing=0.9), dict(spacing=0.9, adjust="region"), dict(shape=(2, 3)), dict(spacing=0.9, center_coordinates=True)]]
+    F["polynomial_power_combinations"] = [lambda k=k: vd.trend.polynomial_power_combinations(k) for k in (0, 1, 2, 3)]
+    F["Trend.jacobian"] = [lambda k=k: vd.Trend(k).jacobian((e, n)) for k in (0, 1, 2, 3)]
+    F["Trend.fit.predict"] = [lambda k=k: vd.Trend(k).fit((e, n), d0).predict(PROBE) for k in (0, 1, 2)]
+    F["Spline.jacobian"] = [lambda m=m: vd.Spline(mindist=m).jacobian((e, n), (e[:4], n[:4])) for m in (None, 0.1, 2.0)]
+    F["Spline.fit.predict"] = [lambda kw=kw: vd.Spline(**kw).fit((e, n), d0).predict(PROBE) for kw in [dict(), dict(damping=1e-2), dict(mindist=0.5), dict(damping=1.0)]]
+    F["VectorSpline2D.fit.predict"] = [lambda kw=kw: vd.VectorSpline2D(mindist=0.5, **kw).fit((e, n), (d0, d1)).predict(PROBE) for kw in
+                                       [dict(), dict(poisson=0.0), dict(damping=1e-2), dict(poisson=-1.0)]]
+    F["KNeighbors.fit.predict"] = [lambda kw=kw: vd.KNeighbors(**kw).fit((e, n), d0).predict(PROBE) for kw in [dict(k=1), dict(k=3), dict(k=3, reduction=np.median)]]
+    F["CheckerBoard.predict"] = [lambda kw=kw: vd.synthetic.CheckerBoard(**kw).predict(PROBE) for kw in
+                                 [dict(), dict(region=(0, 4, 0, 2)), dict(region=(0, 4, 0, 2), w_east=1.0), dict(region=(0, 4, 0, 2), w_north=3.0)]]
+    F["variance_to_weights"] = [lambda kw=kw: vd.variance_to_weights(np.array([1e-4, 0.5, 2.0, 0.0]), **kw) for kw in [dict(), dict(tol=1e-3), dict(tol=1.0)]]
+    F["scatter_points"] = [lambda a=a: vd.scatter_points(*a[0], **a[1]) for a in
+                           [(((0, 4, 0, 2), 5), dict(random_state=0)), (((0, 4, 0, 2), 5), dict(random_state=1)), (((0, 8, 0, 2), 5), dict(random_state=0)),
+                            (((0, 4, 0, 2), 5), dict(random_state=0, extra_coords=2))]]
+    F["longitude_continuity"] = [lambda r=r: vd.longitude_continuity((np.array([0.0, 90, 350, 180, 270]), np.array([-10.0, 0, 10, 5, -5])), r) for r in
+                                 ([350, 10, -10, 10], [0, 20, -10, 10], [-20, 20, -10, 10], [0, 360, -10, 10])]
+    F["distance_mask"] = [lambda kw=kw: vd.distance_mask((e, n), coordinates=PROBE, **kw) for kw in
+                          [dict(maxdist=0.6), dict(maxdist=1.2), dict(maxdist=0.6, projection=lambda x, y: (2 * x, 3 * y))]]
+    F["convexhull_mask"] = [lambda a=a: vd.convexhull_mask(a, coordinates=PROBE) for a in [(e, n), (e[:6], n[:6]), (e * 2, n + 1)]]
+    F["make_xarray_grid"] = [lambda kw=kw: vd.make_xarray_grid(np.meshgrid(np.array([0.0, 1, 3]), np.array([5.0, 6])), np.arange(6.0).reshape(2, 3), "v", **kw)
+                             for kw in [dict(), dict(dims=("lat", "lon"))]]
+    return F
+
+
 def cases(tier, seed):
     for name in _catalogue():
         yield dict(kind="catalogue", name=name)
+    for fam in _families(None if False else _Dummy()):
+        yield dict(kind="interference", family=fam)
     for name in SPECS:
         yield dict(kind="history", spec=name, depth=3 if tier == "quick" else 4)
     for name in _invalid_list():
@@ -384,6 +474,14 @@ def _canonical_history(spec, abstract):
     return h
 
 
+class _Dummy:
+    def __getattr__(self, k):
+        return _Dummy()
+
+    def __call__(self, *a, **k):
+        return _Dummy()
+
+
 def _invalid_list():
     return list(_invalid_table(None).keys())
 
@@ -501,6 +599,7 @@ def run(case, rec):
         if raised(base):
             return rec.check(False, "%s: valid template raised %r" % (case["name"], base))
         cb = _canon(base)
+        _scribble(base)     # the caller overwrites what it got back; nothing the library still holds may change
         again = run_variant("base")
         rec.check(not raised(again) and _canon(again) == cb, "%s: a second identical call returned a different result" % case["name"])
         for k in slots_t:
@@ -514,6 +613,28 @@ def run(case, rec):
             r = run_variant("all_readonly")
             rec.check(not raised(r) and _canon(r) == cb, "%s: all-read-only inputs behave differently: %r" % (case["name"], r if raised(r) else "result differs"))
         rec.cls("catalogue")
+        return
+    if kind == "interference":
+        fam = _families(vd)[case["family"]]
+        npairs = 0
+        for i, fi in enumerate(fam):
+            first = call(rec, fi)
+            if raised(first):
+                rec.check(False, "%s variant %d raised %r" % (case["family"], i, first))
+                continue
+            c1 = _canon(first)
+            for j, fj in enumerate(fam):
+                if i == j:
+                    continue
+                other = call(rec, fj)
+                if not raised(other):
+                    _scribble(other)
+                again = call(rec, fi)
+                npairs += 1
+                rec.check(not raised(again) and _canon(again) == c1,
+                          "%s: the result of variant %d changes after a call of variant %d (and the caller overwriting that call's output)" % (case["family"], i, j))
+        rec.count("interference_pairs", npairs)
+        rec.cls("interference")
         return
     if kind == "unfitted":
         est = SPECS[case["spec"]](vd)
